@@ -29,6 +29,7 @@ def pixels(r, ch, n, style):
     if style == "small": a = 0 if lo == 0 else -6; return [r.range(a, a + 12) for _ in range(n)]
     if style == "edge": return [r.choice([lo, lo + 1, hi - 1, hi, 0, 1]) for _ in range(n)]
     if style == "const": v = r.range(lo, hi); return [v] * n
+    if style == "neg": return [r.range(-12, -1) if lo < 0 else r.range(1, 12) for _ in range(n)]
     return [r.range(lo, hi) for _ in range(n)]
 
 def planes(r, vt, n, style=None):
@@ -118,13 +119,14 @@ def gen_ops(ctx):
     ops.append("mk g8s all 3 3 1 | -1 0 9 | -4 5 -9 | 5 -4 -9")
     ops.append("mk d2_8 all 1 2 1 | 1 20 | 2 1 | 3 5 | 1 2 | 5 3")           # min_key (1,5) is not a component-wise bound of (2,3); B = A permuted
     ops.append("mk g16 all 1 0 0 | 3 | |")
+    ops.append("mk g16 all 1 2 1 | 4 | 1 2 | 5 6")                             # equals is one-sided: {1,2,5,6}.equals({1,2}) answers 1 (not judged)
     for vt in MKSEL:
         ch, nc = VT[vt]
         for _ in range(400 if th else 110):
             sel = r.choice(MKSEL[vt]); k = nsel(vt, sel)
             w, h = r.range(0, 5), r.range(0, 5); n = w * h
             bw = r.range(1, 8 if th else 4)
-            style = r.choice(["small", "small", "small", "edge"])
+            style = r.choice(["small", "small", "neg", "edge"])     # neg: every key below the default key (0,...)
             pa = [pixels(r, ch, n, style) for _ in range(nc)]
             mode = r.below(5)
             if mode <= 1 and n > 0:                      # B = A with its pixels permuted: equal histograms, other insertion order
